@@ -888,6 +888,21 @@ func Run(r *vk.Run) {
 // waitD waits (generously) until the reported DA-included height equals want. It returns false if that does not
 // happen - which load alone cannot cause: a pending wake-up is consumed within microseconds.
 func waitD(get func() uint64, want uint64) bool {
+	if waitDOnce(get, want) {
+		return true
+	}
+	// a pass that is merely late (a machine under heavy load) is not a missing wake-up: the first few cases of a run
+	// that look like one get three times the patience; a tree on which the wake-up really is missing fails them all the
+	// same, and the cases after them keep the run short
+	if slowWaits.Add(1) > 6 {
+		return false
+	}
+	return waitDOnce(get, want) || waitDOnce(get, want)
+}
+
+var slowWaits atomic.Int64
+
+func waitDOnce(get func() uint64, want uint64) bool {
 	deadline := time.Now().Add(3 * time.Second)
 	for time.Now().Before(deadline) {
 		if get() == want {
